@@ -130,6 +130,194 @@ func c10Pem(der []byte) string {
 
 var c10Paths = []string{"ssh", "x509", "x509-kubernetes", "role", "refresh", "aws"}
 
+// ---------------------------------------------------------------- stage (f): the submitted SSH key FILE
+//
+// The file is turned into a key by the validator (getValidSSHPublicKey) and again by the signer
+// (certgen.GenSSHCertFileString on the text): "only strong keys are certified" needs both to read the
+// same key out of every text.  Generator: the authorized_keys grammar (options field, several key
+// fields, several lines, comments, junk after the base64, declared algorithm vs blob, CR / LF / tab /
+// NUL separators, concatenations, truncations) instantiated with pairs of keys - a strong one and a weak
+// one in either order, two strong, two weak.
+
+type c10File struct {
+	text string
+	note string
+}
+
+func c10SSHParts(k *c10Key) (typ, b64 string) {
+	f := strings.Fields(k.sshLine)
+	if len(f) < 2 {
+		return "", ""
+	}
+	return f[0], f[1]
+}
+
+func c10SSHFiles(k1, k2 *c10Key) []c10File {
+	t1, b1 := c10SSHParts(k1)
+	t2, b2 := c10SSHParts(k2)
+	var out []c10File
+	add := func(note, text string) { out = append(out, c10File{text, note}) }
+	add("plain", t1+" "+b1+" c\n")
+	add("two key fields", t1+" "+b1+" "+t2+" "+b2+"\n")
+	add("blob as comment", t1+" "+b1+" "+b2+"\n")
+	add("blob as comment + comment", t1+" "+b1+" "+b2+" c\n")
+	for _, j := range []string{".x", "-", "_", ".", ",", "@", "!", "=x", "==x", "===", "\"", "'", "\\", "#", ":", ";", "%", "*", "~", "\x7f", "\xc3\xa9"} {
+		add("junk "+fmt.Sprintf("%q", j)+" after the base64, second blob", t1+" "+b1+j+" "+b2+" c\n")
+		add("junk "+fmt.Sprintf("%q", j)+" after the base64, second key field", t1+" "+b1+j+" "+t2+" "+b2+"\n")
+		add("junk "+fmt.Sprintf("%q", j)+" after the base64 only", t1+" "+b1+j+"\n")
+	}
+	add("options field", "no-pty "+t1+" "+b1+" c\n")
+	add("options field with quoted command", `command="echo `+t2+" "+b2+`" `+t1+" "+b1+" c\n")
+	add("options list", "restrict,no-pty "+t1+" "+b1+"\n")
+	add("first key as options field", t2+" "+t1+" "+b1+"\n")
+	add("first key field without blob, second complete", t2+" "+b2[:8]+" "+t1+" "+b1+"\n")
+	add("declared algorithm of the other key", t2+" "+b1+" c\n")
+	add("declared algorithm twice", t1+" "+t1+" "+b1+"\n")
+	add("two lines", t1+" "+b1+" c\n"+t2+" "+b2+" c\n")
+	add("two lines CRLF", t1+" "+b1+" c\r\n"+t2+" "+b2+" c\r\n")
+	add("two lines CR", t1+" "+b1+" c\r"+t2+" "+b2+" c")
+	add("comment line first", "# c\n"+t1+" "+b1+"\n")
+	add("comment line, then both", "# "+t2+" "+b2+"\n"+t1+" "+b1+"\n")
+	add("empty line first", "\n"+t1+" "+b1+"\n")
+	add("no final newline", t1+" "+b1)
+	add("two final newlines", t1+" "+b1+"\n\n")
+	add("tab separators", t1+"\t"+b1+"\tc\n")
+	add("tab then second key", t1+" "+b1+"\t"+t2+" "+b2+"\n")
+	add("two spaces", t1+"  "+b1+" c\n")
+	add("leading space", " "+t1+" "+b1+" c\n")
+	add("vertical tab before second blob", t1+" "+b1+"\x0b"+b2+"\n")
+	add("NUL before second key", t1+" "+b1+"\x00"+t2+" "+b2+"\n")
+	add("blobs concatenated", t1+" "+b1+b2+"\n")
+	add("blobs joined by =", t1+" "+b1+"="+b2+"\n")
+	if len(b1) > 8 {
+		add("first blob truncated, second blob", t1+" "+b1[:len(b1)-5]+" "+b2+"\n")
+		add("first blob truncated with junk, second key", t1+" "+b1[:len(b1)-5]+".x "+t2+" "+b2+"\n")
+	}
+	add("very long comment", t1+" "+b1+" "+strings.Repeat("c", 600)+"\n")
+	add("long comment holding the second key", t1+" "+b1+" "+strings.Repeat("c", 100)+" "+t2+" "+b2+"\n")
+	return out
+}
+
+func c10KeyDesc(pub crypto.PublicKey) (kind int, a, b int64) {
+	switch k := pub.(type) {
+	case *rsa.PublicKey:
+		return 0, int64(k.N.BitLen()), int64(k.E)
+	case *ecdsa.PublicKey:
+		return 1, int64(k.Curve.Params().BitSize), 0
+	case ed25519.PublicKey:
+		return 2, 0, 0
+	case *ed25519.PublicKey:
+		return 2, 0, 0
+	}
+	return 3, 0, 0
+}
+
+func c10FileStage(t *testing.T, env *verifEnv, res *verifResult, corpus []*c10Key, userCookie *http.Cookie) (cases, idx []string) {
+	byDesc := map[string]*c10Key{}
+	ids := map[string]int{} // ssh wire form -> identity (1-based; 0 = a key outside the table)
+	for _, k := range corpus {
+		byDesc[k.desc] = k
+	}
+	pick := func(names ...string) []*c10Key {
+		var out []*c10Key
+		for _, n := range names {
+			if k := byDesc[n]; k != nil && k.sshLine != "" {
+				out = append(out, k)
+				if sp, err := ssh.NewPublicKey(k.pub); err == nil {
+					if _, ok := ids[string(sp.Marshal())]; !ok {
+						ids[string(sp.Marshal())] = len(ids) + 1
+					}
+				}
+			}
+		}
+		return out
+	}
+	strong := pick("rsa-2048-e65537", "ecdsa-p256", "rsa-3072-e65537", "ecdsa-p521", "ed25519")
+	weak := pick("rsa-1024-e65537", "dsa-1024", "rsa-2047-e65537", "rsa-2048-e3", "rsa-512-e3")
+	if !verifThorough() {
+		strong, weak = strong[:min(3, len(strong))], weak[:min(3, len(weak))]
+	}
+	type pair struct{ a, b *c10Key }
+	var pairs []pair
+	for i, s := range strong {
+		for j, w := range weak {
+			if !verifThorough() && (i+j+int(verifSeed()))%2 == 1 && !(i == 0 && j == 0) {
+				continue
+			}
+			pairs = append(pairs, pair{s, w}, pair{w, s})
+		}
+	}
+	if len(strong) > 1 {
+		pairs = append(pairs, pair{strong[0], strong[1]}, pair{strong[1], strong[0]})
+	}
+	if len(weak) > 1 {
+		pairs = append(pairs, pair{weak[0], weak[1]})
+	}
+	coqKey := func(k ssh.PublicKey) string {
+		if k == nil {
+			return "None"
+		}
+		kind, a, b := 3, int64(0), int64(0)
+		if cp, ok := k.(ssh.CryptoPublicKey); ok {
+			kind, a, b = c10KeyDesc(cp.CryptoPublicKey())
+		}
+		return fmt.Sprintf("(Some (%d, %d, %d, %d))", ids[string(k.Marshal())], kind, a, b)
+	}
+	for _, pr := range pairs {
+		for _, f := range c10SSHFiles(pr.a, pr.b) {
+			cs := map[string]interface{}{"path": "ssh", "file": f.text, "shape": f.note, "first_key": pr.a.desc, "second_key": pr.b.desc}
+			// the key the strength check is applied to
+			var validated ssh.PublicKey
+			func() {
+				defer func() {
+					if p := recover(); p != nil {
+						res.hit(verifHit{Key: "C10:panic:ssh-file-validator", Oracle: "panic", What: fmt.Sprintf("the SSH key file validator panicked on %s (%s, %s): %v", f.note, pr.a.desc, pr.b.desc, p), Case: cs})
+					}
+				}()
+				if k, userErr, err := getValidSSHPublicKey(f.text); userErr == nil && err == nil {
+					validated = k
+				}
+			}()
+			req := verifCertgenRequest("POST", "alice", "ssh", f.text, nil, nil)
+			req.AddCookie(userCookie)
+			rr, pan := env.serve(req)
+			cert := verifParseCertBody(rr.Body.Bytes())
+			issued := rr.Code == 200 && cert != nil && cert.ssh != nil
+			class := 1
+			if issued {
+				class = 0
+			} else if rr.Code >= 500 || pan || rr.Code < 400 {
+				class = 2
+			}
+			res.eval(fmt.Sprintf("file|%s|%s|%s|%d", f.note, pr.a.desc, pr.b.desc, rr.Code), validated != nil)
+			res.bump("ssh-file")
+			res.bump(fmt.Sprintf("ssh-file-status_%d", rr.Code))
+			var certified ssh.PublicKey
+			if issued {
+				certified = cert.ssh.Key
+				var certKey crypto.PublicKey
+				if cp, ok := certified.(ssh.CryptoPublicKey); ok {
+					certKey = cp.CryptoPublicKey()
+				}
+				if !c10Strong(certKey) {
+					res.hit(verifHit{Key: "C10:weak-certified:ssh", Oracle: "a weak or unknown key was certified",
+						What: fmt.Sprintf("SSH key file (%s; %s then %s) was certified for a weak key", f.note, pr.a.desc, pr.b.desc), Case: cs, Observed: rr.Code})
+				} else if validated == nil || string(validated.Marshal()) != string(certified.Marshal()) {
+					res.hit(verifHit{Key: "C10:certified-unvalidated-key:ssh", Oracle: "the certified key is not the key the strength check was applied to",
+						What: fmt.Sprintf("SSH key file (%s; %s then %s): the validator and the signer read different keys", f.note, pr.a.desc, pr.b.desc), Case: cs, Observed: rr.Code})
+				}
+			}
+			if pan {
+				res.hit(verifHit{Key: "C10:panic:ssh", Oracle: "panic", What: fmt.Sprintf("path ssh panicked on a key file (%s; %s, %s)", f.note, pr.a.desc, pr.b.desc), Case: cs})
+			}
+			cases = append(cases, fmt.Sprintf("(%s, %s, %d)", coqKey(validated), coqKey(certified), class))
+			idx = append(idx, fmt.Sprintf("ssh-file shape=%q first=%s second=%s status=%d issued=%v file=%q", f.note, pr.a.desc, pr.b.desc, rr.Code, issued, f.text))
+		}
+	}
+	res.Extra["ssh_files"] = len(cases)
+	return cases, idx
+}
+
 func TestVerif_C10(t *testing.T) {
 	verifWriteConsts(t)
 	res := newVerifResult("(a) ValidatePublicKeyStrength on synthetic RSA moduli of every bit length 1..4200 x 8 exponents, the four NIST curves, Ed25519 (value and pointer), DSA, X25519, nil; (b) key corpus (RSA 512..4096 incl. 2040..2049 x exponents, P-224/256/384/521, Ed25519, DSA, X25519) x the six issuing paths over HTTP; (c) structure-aware and byte-level mutations of keys, tokens and parameters through every path with a panic-recording wrapper; (e) every kind of genuine signed artefact, each claim dropped / type-confused (re-signed with the server key), header variants, corruptions and garbage at every token sink (cookie, token endpoint for secret and PKCE clients, userinfo, CLI verify/send, storage record, level upgrade); non-trivial = parser accepted the key or a mutation of a valid blob; distinct by (path, key, status)")
@@ -370,21 +558,33 @@ func TestVerif_C10(t *testing.T) {
 	}
 	// (d) malformed address extensions in otherwise trusted client certificates
 	verifCorruptExtensionProbe(env, res, good, "C10")
+	// (f) the SSH key file as the validator and as the signer read it
+	fileCases, fileIdx := c10FileStage(t, env, res, corpus, userCookie)
 	// (e) signed tokens of every kind, claim-dropped / type-confused / corrupted, at every token sink
-	c10TokenStage(t, env, res, rng)
+	claimCases, claimIdx := c10TokenStage(t, env, res, rng)
 	var sb strings.Builder
 	sb.WriteString(coqCaseHeader)
-	sb.WriteString("From KM Require Import Base.Cases Model.KeyStrength.\nOpen Scope N_scope.\n")
+	sb.WriteString("From KM Require Import Base.Cases Model.KeyStrength Model.ClaimAccess.\nOpen Scope N_scope.\n")
 	sb.WriteString("Definition pred_cases : list (N * N * N * bool) := [\n " + strings.Join(predCases, ";\n ") + "].\n")
 	sb.WriteString("Definition c10_pred_mismatches := Eval vm_compute in mismatches c10_bad pred_cases.\nPrint c10_pred_mismatches.\n")
 	sb.WriteString("(* issuing paths: class 0 = certificate issued, 1 = client error, 2 = server error/other *)\n")
 	sb.WriteString("Definition pipe_cases : list (N * N * N * N) := [\n " + strings.Join(pipeCases, ";\n ") + "].\n")
 	sb.WriteString("Definition c10_pipeline_mismatches := Eval vm_compute in mismatches (fun c : N * N * N * N => let '(kind, a, b, cls) := c in match pipeline (Some (desc_of kind a b)) with Signed _ => negb (cls =? 0) && negb (cls =? 1) | ClientError => negb (cls =? 1) | ServerError => true end) pipe_cases.\nPrint c10_pipeline_mismatches.\n")
-	sb.WriteString("Definition c10_ncases := Eval vm_compute in (length pred_cases + length pipe_cases)%nat.\nPrint c10_ncases.\n")
+	sb.WriteString("(* SSH key files: (key the validator approved, key inside the certificate, class); a key is (identity, kind, a, b) *)\n")
+	sb.WriteString("Definition file_cases : list (option (N * N * N * N) * option (N * N * N * N) * N) := [\n " + strings.Join(fileCases, ";\n ") + "].\n")
+	sb.WriteString("Definition c10_file_mismatches := Eval vm_compute in mismatches c10_file_bad file_cases.\nPrint c10_file_mismatches.\n")
+	sb.WriteString("Definition c10_agree_mismatches := Eval vm_compute in mismatches c10_agree_bad file_cases.\nPrint c10_agree_mismatches.\n")
+	sb.WriteString("(* claim access on well-signed tokens: (payload, clock s, panicked, what getAuthInfoFromAuthJWT returned: user, level, expires, issued-at) *)\n")
+	sb.WriteString("Definition c10_issuer : bs := " + coqPacked([]byte(env.state.idpGetIssuer())) + ".\nDefinition c10_kind : bs := " + coqPacked([]byte("keymaster_auth")) + ".\n")
+	sb.WriteString("Definition claim_cases : list (json * Z * bool * option (bs * Z * Z * Z)) := [\n " + strings.Join(claimCases, ";\n ") + "].\n")
+	sb.WriteString("Definition c10_claim_mismatches := Eval vm_compute in mismatches (fun c : json * Z * bool * option (bs * Z * Z * Z) => let '(pl, now, pan, obs) := c in match get_auth_info c10_issuer c10_kind now pl, obs with | Ok (u, l, e, i), Some (u', l', e', i') => pan || negb (bs_eqb u u' && (l =? l')%Z && (e =? e')%Z && (i =? i')%Z) | Err, None => pan | Panic, _ => negb pan | _, _ => true end) claim_cases.\nPrint c10_claim_mismatches.\n")
+	sb.WriteString("Definition c10_ncases := Eval vm_compute in (length pred_cases + length pipe_cases + length file_cases + length claim_cases)%nat.\nPrint c10_ncases.\n")
 	if err := ioutil.WriteFile(filepath.Join(verifOut(), "CasesC10.v"), []byte(sb.String()), 0644); err != nil {
 		t.Fatal(err)
 	}
 	ioutil.WriteFile(filepath.Join(verifOut(), "CasesC10.idx"), []byte(strings.Join(pipeIdx, "\n")), 0644)
+	ioutil.WriteFile(filepath.Join(verifOut(), "CasesC10F.idx"), []byte(strings.Join(fileIdx, "\n")), 0644)
+	ioutil.WriteFile(filepath.Join(verifOut(), "CasesC10J.idx"), []byte(strings.Join(claimIdx, "\n")), 0644)
 	res.sample(map[string]interface{}{"path": "role", "key": "rsa-2047-e65537", "expected": "client error"})
 	res.sample(pipeIdx[0])
 	res.sample(pipeIdx[len(pipeIdx)/2])
